@@ -231,3 +231,60 @@ Definition stack_spec_b (ss : sshape) (R : registry) (pe pb : pshape) (r : optio
   | OPanic => outcome_eqb OPanic (snd obs)
   | ORet r' e' => static_case_spec_b (static_cfg ss) r' e' (snd obs)
   end.
+
+(* ---------- values: each modifier sees the previous one's output ---------- *)
+Definition tag_eqb (a b : tag) : bool := level_eqb (fst a) (fst b) && Nat.eqb (snd a) (snd b).
+Definition trace_eqb (a b : trace) : bool := list_eqb tag_eqb a b.
+Definition vevent_eqb (a b : vevent) : bool :=
+  match a, b with
+  | VReq l p s, VReq l' p' s' => level_eqb l l' && Nat.eqb p p' && trace_eqb s s'
+  | VResp l p s, VResp l' p' s' => level_eqb l l' && Nat.eqb p p' && trace_eqb s s'
+  | VBackend s, VBackend s' => trace_eqb s s'
+  | _, _ => false
+  end.
+Definition vresult_eqb (a b : vresult) : bool :=
+  match a, b with VNone, VNone => true | VRet t, VRet t' => trace_eqb t t' | _, _ => false end.
+Definition vcomp_eqb (a b : list vevent * vresult) : bool :=
+  list_eqb vevent_eqb (fst a) (fst b) && vresult_eqb (snd a) (snd b).
+
+Definition modifies (b : beh) : bool := match b with BModify => true | _ => false end.
+
+(* the tags added by the modifiers of l, in order *)
+Definition tags (lv : level) (l : mods) : trace :=
+  map (fun m => (lv, fst m)) (filter (fun m => modifies (snd m)) l).
+
+(* declaratively: the i-th invoked modifier sees the initial value followed by the tags of
+   the modifying modifiers before it; nothing else is invoked after the first failure *)
+Definition seen_decl (lv : level) (l : mods) (v : trace) : list (nat * trace) :=
+  map (fun i => match nth_error l i with
+                | Some (p, _) => (p, (v ++ tags lv (firstn i l))%list)
+                | None => (0, [])
+                end) (seq 0 (List.length (called l))).
+Definition out_decl (lv : level) (l : mods) (v : trace) : option trace :=
+  match failed l with Some _ => None | None => Some (v ++ tags lv l)%list end.
+
+Definition vlayer_decl (lv : level) (rq rs : mods) (inner : vproxy) : vproxy := fun v =>
+  match out_decl lv rq v with
+  | None => (vreq lv (seen_decl lv rq v), VNone)
+  | Some v' =>
+      let '(li, ri) := inner v' in
+      match ri with
+      | VNone => ((vreq lv (seen_decl lv rq v) ++ li)%list, VNone)
+      | VRet t =>
+          ((vreq lv (seen_decl lv rq v) ++ li ++ vresp lv (seen_decl lv rs t))%list,
+           match out_decl lv rs t with Some t' => VRet t' | None => VNone end)
+      end
+  end.
+
+Definition vstack_decl (R : registry) (pe pb : pshape) (t0 : option trace) : vproxy :=
+  vlayer_decl LEndpoint (configured_req R (shape_names pe)) (configured_resp R (shape_names pe))
+    (vlayer_decl LBackend (configured_req R (shape_names pb)) (configured_resp R (shape_names pb))
+       (vbackend t0)).
+
+Definition thread_spec_b (R : registry) (pe pb : pshape) (v0 : trace) (t0 : option trace)
+           (obs : list vevent * vresult) : bool :=
+  vcomp_eqb (vstack_decl R pe pb t0 v0) obs.
+
+(* forgetting the values gives the call log of the order model *)
+Definition erase (e : vevent) : event :=
+  match e with VReq l p _ => EvReq l p | VBackend _ => EvBackend | VResp l p _ => EvResp l p end.
